@@ -478,3 +478,107 @@ Definition simple_pl (written : bool) (l : data) : option (bool * list data) :=
     for equal contents; distinct generated contents are assumed not to
     collide). *)
 Definition big_sum (d : data) : N := fold_left (fun a x => a * 257 + x + 1) d 0.
+
+(** ** Round 6 (L): the HTTP status of a list download
+
+    DNSFilter.readerFromURL asks d.conf.HTTPClient.Get and opens a reader on
+    the body ONLY when the status of the final response is 200; every other
+    status is an error of the source (the pending file is cleaned up, the
+    stored list stays).  The client follows redirects by itself (net/http:
+    301, 302, 303, 307, 308 carrying a Location; at most [max_redirects] hops,
+    then an error); a 3xx answer without Location, 300, 304 ... come back as
+    they are and are refused like any status that is not 200.
+
+    The list server is a map from URLs (numbers) to answers.  [fetch] is what
+    Get returns: the status and the body of the LAST response of the chain, or
+    nothing (connection refused, too many redirects).  [accept] is the status
+    test: [only_200] as the code is, [any_2xx] the refuted variant. *)
+
+Inductive answer :=
+  | ARedirect (to : N)                                  (* 3xx with a Location *)
+  | AServe (status : N) (chunks : list data) (cut : bool)
+  | ADown.
+
+Fixpoint fetch (fuel : nat) (web : N -> answer) (u : N) : option (N * reader) :=
+  match web u with
+  | ADown => None
+  | AServe st chunks cut => Some (st, serve chunks cut)
+  | ARedirect to => match fuel with O => None | S f => fetch f web to end
+  end.
+
+(** net/http defaultCheckRedirect: the 10th redirect of a chain is refused. *)
+Definition max_redirects : nat := 9.
+
+Definition only_200 (st : N) : bool := st =? 200.
+Definition any_2xx (st : N) : bool := (200 <=? st) && (st <? 300).
+
+Section UpdateUrl.
+  Variable St : Type.
+  Variable st0 : St.
+  Variable feed : St -> data -> option (St * list data).
+  Variable finish : St -> option (list data).
+  Variable sum : data -> N.
+
+  (** updateIntl on an HTTP URL: the pending file first, then Get. *)
+  Definition update_from_url (accept : N -> bool) (fuel : nat) (web : N -> answer) (u : N)
+             (fd : N) (tmp dst : path) (old_sum : N) (p : plan) : list op * outcome :=
+    match fetch fuel web u with
+    | Some (st, r) => update_list St st0 feed finish sum fd tmp dst (accept st) r old_sum p
+    | None => update_list St st0 feed finish sum fd tmp dst false [] old_sum p
+    end.
+End UpdateUrl.
+
+(** ** Round 6 (K): the migration of the legacy lease database
+
+    dhcpd.migrateDB (run by Create at every start): read <work>/leases.db
+    (absent: nothing to do; unreadable or not decodable: error, nothing
+    written); convert; writeDB(<data>/leases.json) = renameio.WriteFile;
+    ONLY when that succeeded os.Remove(leases.db) (its error is returned).
+    The lease data live in TWO paths during this save: [old] (legacy) and
+    [dst].  [conv]: decoding + conversion + serialisation of the legacy
+    content, abstract ("null" decodes to no table at all: nothing to
+    migrate).  [guard = false] is the refuted variant whose removal does not
+    look at the result of the write (deferred, unconditional). *)
+
+Inductive conv_res := ConvNothing | ConvErr | ConvNew (chunks : list data).
+Inductive mig_res := MigNothing | MigDone | MigErr.
+
+(** What follows the write: [w] = operations and outcome of the write. *)
+Definition migrate_tail (guard : bool) (old : path) (w : list op * outcome) (rm_fails : bool) : list op * mig_res :=
+  match snd w with
+  | Replaced => if rm_fails then (fst w, MigErr) else (fst w ++ [Unlink old], MigDone)
+  | _ => if guard then (fst w, MigErr)
+         else (fst w ++ (if rm_fails then [] else [Unlink old]), MigErr)
+  end.
+
+Definition migrate (guard : bool) (s : fs) (old dst : path) (fd : N) (tmp : path) (readable : bool)
+           (conv : data -> conv_res) (p : plan) (rm_fails : bool) : list op * mig_res :=
+  match live_view s old with
+  | None => ([], MigNothing)
+  | Some oc =>
+      if negb readable then ([], MigErr)
+      else match conv oc with
+           | ConvNothing => ([], MigNothing)
+           | ConvErr => ([], MigErr)
+           | ConvNew chunks => migrate_tail guard old (write_file fd tmp dst chunks p) rm_fails
+           end
+  end.
+
+(** What can be read at TWO paths at the same moment: now, and after a crash
+    now (one directory of the journal for both paths; per file any crash
+    content). *)
+Definition dviews (d : dir) (s : fs) (p : path) : list (option data) :=
+  match aget d p with
+  | Some i => map Some (crash_contents (file_of s i))
+  | None => [None]
+  end.
+
+Definition crash_pairs (s : fs) (p q : path) : list (option data * option data) :=
+  flat_map (fun d => list_prod (dviews d s p) (dviews d s q)) (all_dirs s).
+
+Fixpoint visible_pairs (s : fs) (t : list op) (p q : path) : list (option data * option data) :=
+  ((live_view s p, live_view s q) :: crash_pairs s p q) ++
+  match t with
+  | [] => []
+  | o :: t' => visible_pairs (step s o) t' p q
+  end.
